@@ -663,8 +663,10 @@ func (s *Service) serve(nc Conn) error {
 	// Initialize fields
 	inCh := make(chan *nats.Msg, s.inChannelSize)
 	workCh := make(chan *work, 1)
+	s.mu.Lock()
 	s.nc = nc
 	s.inCh = inCh
+	s.mu.Unlock()
 	s.workcond = sync.Cond{L: &s.mu}
 	s.workbuf = make([]*work, s.inChannelSize)
 	s.workqueue = s.workbuf[:0]
@@ -679,7 +681,7 @@ func (s *Service) serve(nc Conn) error {
 
 	atomic.StoreInt32(&s.state, stateStarted)
 
-	err = s.subscribe()
+	err = s.subscribe(nc, inCh)
 	if err != nil {
 		s.errorf("Failed to subscribe: %s", err)
 		go s.Shutdown()
@@ -718,8 +720,10 @@ func (s *Service) Shutdown() error {
 	s.wg.Wait()
 	simYield("Shutdown.afterWait", "")
 
+	s.mu.Lock()
 	s.inCh = nil
 	s.nc = nil
+	s.mu.Unlock()
 
 	atomic.StoreInt32(&s.state, stateStopped)
 
@@ -873,7 +877,7 @@ func (s *Service) setDefaultOwnership() {
 
 // subscribe makes a nats subscription for each required request type, based on
 // the patterns used for ResetAll.
-func (s *Service) subscribe() error {
+func (s *Service) subscribe(nc Conn, inCh chan *nats.Msg) error {
 	var err error
 	s.setDefaultOwnership()
 	if len(s.resetResources) == 0 && len(s.resetAccess) == 0 {
@@ -894,9 +898,9 @@ func (s *Service) subscribe() error {
 		pattern := "access." + p
 		s.tracef("sub %s", pattern)
 		if s.queueGroup == "" {
-			_, err = s.nc.ChanSubscribe(pattern, s.inCh)
+			_, err = nc.ChanSubscribe(pattern, inCh)
 		} else {
-			_, err = s.nc.ChanQueueSubscribe(pattern, s.queueGroup, s.inCh)
+			_, err = nc.ChanQueueSubscribe(pattern, s.queueGroup, inCh)
 		}
 		if err != nil {
 			return err
@@ -913,9 +917,9 @@ next:
 		}
 		s.tracef("sub %s", pattern)
 		if s.queueGroup == "" {
-			_, err = s.nc.ChanSubscribe(pattern, s.inCh)
+			_, err = nc.ChanSubscribe(pattern, inCh)
 		} else {
-			_, err = s.nc.ChanQueueSubscribe(pattern, s.queueGroup, s.inCh)
+			_, err = nc.ChanQueueSubscribe(pattern, s.queueGroup, inCh)
 		}
 		if err != nil {
 			return err
@@ -1087,7 +1091,7 @@ func (s *Service) event(subj string, data interface{}) {
 	payload, err := json.Marshal(data)
 	if err == nil {
 		s.tracef("<-- %s: %s", subj, payload)
-		err = s.nc.Publish(subj, payload)
+		err = s.publish(subj, payload)
 	}
 	if err != nil {
 		s.errorf("Error sending event %s: %s", subj, err)
@@ -1099,10 +1103,24 @@ func (s *Service) event(subj string, data interface{}) {
 func (s *Service) rawEvent(subj string, payload []byte) {
 	simYield("rawEvent", subj)
 	s.tracef("<-- %s: %s", subj, payload)
-	err := s.nc.Publish(subj, payload)
+	err := s.publish(subj, payload)
 	if err != nil {
 		s.errorf("Error sending event %s: %s", subj, err)
 	}
+}
+
+// publish publishes the payload on the service connection. Events may be sent
+// from any goroutine, also while Shutdown clears the connection, so the
+// connection is read under the lock and errNotStarted is returned if the
+// service has none.
+func (s *Service) publish(subj string, payload []byte) error {
+	s.mu.Lock()
+	nc := s.nc
+	s.mu.Unlock()
+	if nc == nil {
+		return errNotStarted
+	}
+	return nc.Publish(subj, payload)
 }
 
 // handleReconnect is called when nats has reconnected.
